@@ -226,6 +226,16 @@ pub fn gen_c11(c: &mut Ctx) {
             }
             let mut ks: Vec<usize> = (0..=n + 2).collect();
             ks.extend([63usize, 64, 65, usize::MAX]);
+            // values whose low 8 / 16 / 32 bits are a small k again (seed C11-g: `k as u32`), and
+            // powers of two around the word sizes
+            for base in [1usize << 8, 1 << 16, 1 << 32, 1 << 33, (1 << 32) + (1 << 8), 1 << 63] {
+                for low in [0usize, 1, n / 2, n, n + 1] {
+                    ks.push(base + low);
+                }
+            }
+            ks.extend([usize::MAX - 1, usize::MAX - n, (1usize << 32) - 1, (1usize << 31), 127, 128, 255, 256]);
+            ks.sort();
+            ks.dedup();
             for k in ks {
                 p!(c, "ctor {} threshold {} {}", ty, n, k);
                 p!(c, "ctor {} equals {} {}", ty, n, k);
@@ -570,6 +580,23 @@ pub fn gen_c07(c: &mut Ctx) {
                 }
                 let s: Vec<String> = tabs.iter().map(|t| t.show()).collect();
                 p!(c, "bdd {} {} {}", ty, n, s.join(" "));
+            }
+            // several-word tables spliced from their neighbours in the list: c = tail of a ++ head
+            // of b, at every word offset (seed C07-g: a duplicate filter sliding over the
+            // concatenated words), in several list orders
+            if n >= 7 {
+                let a = gen_tab(&mut c.rng, n);
+                let b = gen_tab(&mut c.rng, n);
+                let nw = a.w.len();
+                let offs: Vec<usize> = if nw <= 4 { (1..nw).collect() } else { vec![1, nw / 2, nw - 1] };
+                for off in offs {
+                    let mut cw: Vec<u64> = a.w[off..].to_vec();
+                    cw.extend_from_slice(&b.w[..off]);
+                    let cc = Tab::new(n, cw);
+                    p!(c, "bdd {} {} {} {} {}", ty, n, a.show(), b.show(), cc.show());
+                    p!(c, "bdd {} {} {} {} {}", ty, n, cc.show(), a.show(), b.show());
+                    p!(c, "bdd {} {} {} {} {} {}", ty, n, b.show(), a.show(), b.show(), cc.show());
+                }
             }
             // functions of few top/bottom variables: level boundaries 5/6
             for _ in 0..reps / 2 {
